@@ -17,6 +17,7 @@ import (
 
 	"verif/e2"
 	"verif/e2s1"
+	"verif/peer"
 	"verif/ref/e4"
 	"verif/vfw"
 )
@@ -209,6 +210,146 @@ func partContention(c *vfw.Ctx, t *testing.T) {
 					return
 				}
 				checkContention(c, t, contCase{Active: active, L: L, Inb: inb})
+			}
+		}
+	}
+}
+
+// ---- same header on the next link ----
+
+// A message is delivered on link 1, the peer drops the link and, on link 2, sends a message with
+// exactly the same 10 header bytes (a restarted peer re-issuing its first transaction). Duplicate
+// suppression is about retransmissions on ONE line: the message must be delivered again.
+type regenCase struct {
+	Active bool `json:"active"`
+	Equip  bool `json:"equip"`
+	Blocks int  `json:"blocks"`
+}
+
+func runRegen(t *testing.T, rc regenCase) (fail *failure, leak string) {
+	leak = e2.Run(t, func(w *e2.World) {
+		w.OnLeak = onLeak
+		bad := func(key, format string, a ...any) {
+			if fail == nil {
+				fail = &failure{key, fmt.Sprintf("%+v: ", rc) + fmt.Sprintf(format, a...)}
+			}
+		}
+		const dev = 0x0042
+		n := e2s1.New(w, e2s1.Opts{Active: rc.Active, Equip: rc.Equip, Device: dev, Retry: 3, T1: outT1, T2: outT2, T4: outT4,
+			Conn: []hsms.ConnOption{hsms.WithT3(time.Hour), hsms.WithT5(time.Second), hsms.WithReconnectBackoff(100*time.Millisecond, 2)}})
+		pe, err := openNode(w, n)
+		if err != nil {
+			bad("harness", "%v", err)
+			return
+		}
+		defer func() {
+			_ = n.Close()
+			_ = pe.C.Close()
+			w.Settle()
+		}()
+		body := make([]byte, 0, 600)
+		body = append(body, 0x21, 0x00) // placeholder; replaced below
+		payload := 10
+		if rc.Blocks == 2 {
+			payload = 300
+		}
+		body = body[:0]
+		if payload < 256 {
+			body = append(body, 0x21, byte(payload))
+		} else {
+			body = append(body, 0x22, byte(payload>>8), byte(payload))
+		}
+		for i := 0; i < payload; i++ {
+			body = append(body, byte(i))
+		}
+		blocks := e4.Split(e4.Header{Device: dev, R: !rc.Equip, Stream: 1, Function: 13, W: false, System: [4]byte{0, 0, 0, 1}}, body)
+		sendAll := func(link string) bool {
+			before := n.NDelivered()
+			for bi, b := range blocks {
+				ans, ok, err := pe.SendBlock(b.Marshal())
+				if err != nil {
+					bad("regen:line", "%s: block %d: %v", link, bi+1, err)
+					return false
+				}
+				if !ok {
+					w.Advance(tick)
+					ans, ok = pe.Answer()
+				}
+				if !ok || ans != e4.ACK {
+					bad("regen:line", "%s: block %d answered %x (present=%v), want ACK", link, bi+1, ans, ok)
+					return false
+				}
+			}
+			w.Advance(tick)
+			if got := n.NDelivered(); got != before+1 {
+				bad("regen:not-delivered", "%s: %d message(s) delivered for one complete, acknowledged %d-block message with header S1F13 sys=00000001 (a message with the same header had been accepted on the previous link)", link, got-before, len(blocks))
+				return false
+			}
+			return true
+		}
+		if !sendAll("link 1") {
+			return
+		}
+		_ = pe.C.Close()
+		w.Settle()
+		var pc = w.Net.TakePeer()
+		for k := 0; k < 40 && pc == nil; k++ {
+			w.Advance(100 * time.Millisecond)
+			if rc.Active {
+				pc = w.Net.TakePeer()
+			} else {
+				pc = w.Net.Connect()
+			}
+		}
+		if pc == nil {
+			bad("regen:no-recovery", "no second link within 4 s")
+			return
+		}
+		w.Settle()
+		pe = peer.NewE4(pc, w.Settle)
+		w.Advance(tick)
+		if !sendAll("link 2") {
+			return
+		}
+		if st := n.C.State(); st != hsms.SelectedState {
+			bad("regen:link-down", "State() is %v", st)
+		}
+	})
+	return fail, leak
+}
+
+func checkRegen(c *vfw.Ctx, t *testing.T, rc regenCase) {
+	rep := map[string]any{"part": "regen", "regen": rc}
+	onLeak = func(stacks string) {
+		c.Violate("goroutine-leak", fmt.Sprintf("library goroutines alive after Close, regen case %+v:\n%s", rc, stacks[:min(len(stacks), 1500)]), rep)
+		c.Abort("goroutine leak wedged the bubble")
+	}
+	fail, leak := runRegen(t, rc)
+	c.Case(true)
+	c.Graph(0, 0, 1)
+	c.Add("regen_executions", 1)
+	if leak != "" {
+		c.Violate("goroutine-leak", "library goroutines alive after Close: "+leak[:min(len(leak), 600)], rep)
+	}
+	if fail != nil {
+		if fail.key == "harness" {
+			c.HarnessError("regen %+v: %s", rc, fail.desc)
+			return
+		}
+		c.Violate(fail.key, fail.desc, rep)
+		return
+	}
+	c.Outcome("regen:same-header-delivered-on-next-link")
+}
+
+func partRegen(c *vfw.Ctx, t *testing.T) {
+	for _, active := range []bool{false, true} {
+		for _, equip := range []bool{false, true} {
+			for _, nb := range []int{1, 2} {
+				if !c.Next() {
+					continue
+				}
+				checkRegen(c, t, regenCase{Active: active, Equip: equip, Blocks: nb})
 			}
 		}
 	}
